@@ -69,6 +69,9 @@ pub struct RunCfg<'a> {
     pub pool: Option<&'a Arc<ThreadPool>>,
     /// explicit operator order (through Graph::verif_run_plan) instead of the planner's
     pub order: Option<&'a [NodeId]>,
+    /// owned inputs are passed with non-contiguous storage (the transposed data, permuted
+    /// back in place), so that in-place execution meets a non-contiguous owned operand
+    pub owned_noncontiguous: bool,
 }
 
 /// Run requesting the values `outs` (value indices). Inputs whose tensors are
@@ -78,6 +81,14 @@ pub fn run(l: &Loaded, input_tensors: &[Tensor<f32>], supplied: &[usize], outs: 
     for &i in supplied {
         let Some(id) = l.ids[i] else { return RunOutcome::Err("input node missing".into()) };
         if cfg.owned_mask >> i & 1 == 1 {
+            let t = &input_tensors[i];
+            if cfg.owned_noncontiguous && t.ndim() == 2 {
+                let mut tt = t.transposed().to_tensor();
+                tt.permute(&[1, 0]);
+                debug_assert_eq!(tt.shape(), t.shape());
+                inputs.push((id, ValueOrView::Value(Value::from(tt))));
+                continue;
+            }
             inputs.push((id, ValueOrView::Value(Value::from(input_tensors[i].clone()))));
         } else {
             inputs.push((id, ValueOrView::from(input_tensors[i].view())));
